@@ -2,6 +2,7 @@ package props
 
 import (
 	"go/token"
+	"go/types"
 
 	"golang.org/x/tools/go/ssa"
 )
@@ -9,3 +10,5 @@ import (
 type ssaFn = ssa.Function
 
 type tokenPos = token.Pos
+
+type typesVar = types.Var
